@@ -254,7 +254,7 @@ func runC19(c *Check) {
 	c.Doc("C19-R5", "VP+EO: a buffer is zeroed outside a defer only after the last use of every value that may alias it.")
 	ruleWipeAfterLastUse(c, p, keyFns)
 	c.MinInstances("C19-R1", 1)
-	c.MinInstances("C19-R2", 2)
+	c.MinInstances("C19-R2", 1)
 	c.MinInstances("C19-R3", 3)
 	c.MinInstances("C19-R4", 2)
 }
